@@ -140,6 +140,28 @@ func (r *Rewriter) MarkStructCopied(name string) {
 	}
 }
 
+// MarkEmptyStructCopied marks an untouched `type name struct{}` declaration (no fields, no
+// doc comment) as copied. The single-file resolver template emits exactly this declaration for
+// the root resolver type, so a previous copy of it is not left-over user code.
+func (r *Rewriter) MarkEmptyStructCopied(name string) {
+	for _, f := range r.pkg.Syntax {
+		for _, d := range f.Decls {
+			d, isGen := d.(*ast.GenDecl)
+			if !isGen || d.Tok != token.TYPE || len(d.Specs) != 1 || d.Doc != nil {
+				continue
+			}
+			spec, isTypeSpec := d.Specs[0].(*ast.TypeSpec)
+			if !isTypeSpec || spec.Name.Name != name || spec.TypeParams != nil || spec.Assign.IsValid() {
+				continue
+			}
+			st, isStruct := spec.Type.(*ast.StructType)
+			if isStruct && st.Fields != nil && st.Fields.Closing == st.Fields.Opening+1 {
+				r.copied[d] = true
+			}
+		}
+	}
+}
+
 func (r *Rewriter) ExistingImports(filename string) []Import {
 	filename, err := filepath.Abs(filename)
 	if err != nil {
